@@ -215,11 +215,11 @@ func (r vfHTTPReq) Class() string {
 }
 
 func vfPick(rt *rapid.T, label string, xs ...string) string {
-	return xs[rapid.IntRange(0, len(xs)-1).Draw(rt, label)]
+	return xs[vfUniform(rt, label, len(xs))]
 }
 
 func vfChance(rt *rapid.T, label string, pct int) bool {
-	return rapid.IntRange(0, 99).Draw(rt, label) >= 100-pct
+	return vfUniform(rt, label, 100) >= 100-pct
 }
 
 func vfGenHTTPReq(rt *rapid.T, withResp bool) vfHTTPReq {
